@@ -5,4 +5,6 @@
 EXTENDS Hll
 MCCoupons == {<<0,1>>, <<2,3>>, <<1,2>>, <<5,1>>}
 Bound == \A i \in Live : Cardinality(obj[i].fed) <= 2
+\* sparse-ghost config: both ghost representations side by side, one type, not full-size
+BoundSparse == Bound /\ \A i \in Live : obj[i].type = 8 /\ ~obj[i].full
 ====
